@@ -122,6 +122,12 @@ impl Plan {
         if inst != self.victim {
             return;
         }
+        // the three connected-state handlers and the two ICE loops share the model's site names
+        let norm = point
+            .replace("pre:nodtls.", "pre:conn.")
+            .replace("pre:connx.", "pre:conn.")
+            .replace("pre:direct.ice_", "pre:iceloop.ice_");
+        let point = norm.as_str();
         if let Some(pp) = &self.phase_point {
             if point == pp && !self.fired1.swap(true, Ordering::SeqCst) {
                 log("life", inst, "phase_hit", json!({"point": point}));
@@ -393,6 +399,10 @@ async fn run_c17(sc: &Value, attempt: u64, rec: Arc<Recorder>) -> Value {
     cfg.fast_timers = loss;
     cfg.small_sctp_buffer = blocked;
 
+    // loss scenarios: the DTLS handshake deadline (30 s) and retransmission tick (1 s) are shortened too
+    rustrtc::verif::set_override("dtls_deadline_ms", if loss { Some(3000) } else { None });
+    rustrtc::verif::set_override("dtls_retransmit_ms", if loss { Some(300) } else { None });
+
     let base_tasks = alive_tasks();
     let base_socks = socket_count();
 
@@ -443,7 +453,7 @@ async fn run_c17(sc: &Value, attempt: u64, rec: Arc<Recorder>) -> Value {
         if phase == "gathering" {
             // gathering has been started and is awaited by a pending API call
             let _ = pair.step_gather_offer().await;
-            if let Some(pc) = v.try_pc() {
+            if let Some(pc) = v.try_pc().filter(|_| !drops) {
                 let l = v.label.clone();
                 pending.push(tokio::spawn(async move {
                     api_call(&l, "wait_for_gathering_complete", Duration::from_secs(5), pc.wait_for_gathering_complete(), |_| "ok".into()).await
@@ -468,8 +478,9 @@ async fn run_c17(sc: &Value, attempt: u64, rec: Arc<Recorder>) -> Value {
             plan.fire1_now();
             return;
         }
-        // a pending wait_for_connected on the victim from here on
-        if let Some(pc) = v.try_pc() {
+        // a pending wait_for_connected on the victim from here on (not when the application is
+        // going to drop the connection: a pending call holds a handle of its own)
+        if let Some(pc) = v.try_pc().filter(|_| !drops) {
             let l = v.label.clone();
             pending.push(tokio::spawn(async move {
                 api_call(&l, "wait_for_connected.pending", Duration::from_secs(12), pc.wait_for_connected(), okerr).await
@@ -508,7 +519,7 @@ async fn run_c17(sc: &Value, attempt: u64, rec: Arc<Recorder>) -> Value {
             notes.push("channels not open within 10 s".into());
             return;
         }
-        if phase == "mediaFlowing" || blocked {
+        if phase == "mediaFlowing" {
             for side in [pair.a.clone(), pair.b.clone()] {
                 let stop = stop_traffic.clone();
                 let with_dc = cfg.dc && !blocked;
@@ -636,7 +647,7 @@ async fn run_c17(sc: &Value, attempt: u64, rec: Arc<Recorder>) -> Value {
     // ---- let the stack settle, then observe
     let local = |e: &str| matches!(e, "Close" | "Drop");
     let any_local = local(&ev1) || local(&ev2) || blocked;
-    let term_bound = if loss { Duration::from_secs(12) } else if any_local { Duration::from_secs(3) } else { Duration::from_secs(6) };
+    let term_bound = if loss { Duration::from_secs(30) } else if any_local { Duration::from_secs(3) } else { Duration::from_secs(6) };
     let t_wait = Instant::now();
     let reached = if fired1 && app1 {
         wait_until(term_bound, || is_terminal(&v)).await
@@ -683,6 +694,9 @@ async fn run_c17(sc: &Value, attempt: u64, rec: Arc<Recorder>) -> Value {
 
     // ---- the application closes (again) and drops everything; resources must come back
     let peer_before2 = format!("{:?}", v.peer_state().unwrap());
+    if v.pc.lock().is_some() {
+        log("life", &victim, "fire", json!({"event": "Close", "ord": 3}));
+    }
     let closed_again = v.close();
     quiesce(Duration::from_millis(100), Duration::from_secs(2)).await;
     let peer_after2 = format!("{:?}", v.peer_state().unwrap());
@@ -700,6 +714,9 @@ async fn run_c17(sc: &Value, attempt: u64, rec: Arc<Recorder>) -> Value {
     *plan.b.lock() = None;
     pair.a.release_aux();
     pair.b.release_aux();
+    if v.pc.lock().is_some() {
+        log("life", &victim, "fire", json!({"event": "Drop", "ord": 4}));
+    }
     pair.a.drop_pc();
     pair.b.drop_pc();
     let final_peer = format!("{:?}", v.peer_state().unwrap());
@@ -713,6 +730,8 @@ async fn run_c17(sc: &Value, attempt: u64, rec: Arc<Recorder>) -> Value {
     let rel_ms = t_rel.elapsed().as_millis() as u64;
     let end_tasks = alive_tasks();
     let end_socks = socket_count();
+    // everything logged after this marker belongs to the runtime shutdown, not to the scenario
+    log("life", &victim, "done", json!({}));
     let leak_detail = if released { vec![] } else { socket_details() };
     rec.drain();
     let hit = fired1 && app1 && (ev2 == "none" || blocked || (plan.fired2.load(Ordering::SeqCst) && plan.applicable2.load(Ordering::SeqCst)));
